@@ -200,3 +200,46 @@ func HarnessReverseAbsent() {
 	}
 	verif.Reach("reverse-absent-done")
 }
+
+type LateH struct {
+	mu      sync.Mutex
+	entered chan struct{}
+	ret     int
+	err     error
+}
+
+// Late waits until its own context ends (the connection is gone), then reverse-calls.
+func (h *LateH) Late(ctx context.Context) (int64, error) {
+	rc, ok := jsonrpc.ExtractReverseClient[RevProxy](ctx)
+	close(h.entered)
+	if !ok {
+		return -1, nil
+	}
+	<-ctx.Done()
+	v, err := rc.Whoami(context.Background(), 1)
+	h.mu.Lock()
+	h.ret++
+	h.err = err
+	h.mu.Unlock()
+	return v, err
+}
+
+// HarnessReverseAfterGone: a handler that is still running after its client's
+// connection ended starts a reverse call: it returns an error, it does not block.
+func HarnessReverseAfterGone() {
+	h := &LateH{entered: make(chan struct{})}
+	srv := jsonrpc.NewServer(jsonrpc.WithReverseClient[RevProxy]("rev"))
+	srv.Register("H", h)
+	pc := verif.DialRaw(srv, nil)
+	pc.Send([]byte(`{"jsonrpc":"2.0","id":1,"method":"H.Late","params":[]}`))
+	<-h.entered
+	if verif.Bool("reset") {
+		pc.Abort()
+	} else {
+		pc.CloseGraceful()
+	}
+	verif.Quiesce()
+	verif.Assert(h.ret == 1, "reverse-call-started-after-loss-returns")
+	verif.Assert(h.err != nil, "reverse-call-started-after-loss-fails")
+	verif.Reach("reverse-after-gone-done")
+}
